@@ -11,6 +11,7 @@ out-of-bounds access or use of an invalid handle (DESIGN.md section 3, C08):
   CEIL-ZERO   (c08_wrap.py) RLC_CEIL(A, B) = (A - 1) / B + 1 only where the unsigned A is positive
   WRAP        (c08_wrap.py) an unsigned subtraction that bounds a loop or decides a comparison cannot wrap
   GUARD-RANGE (c08_range.py) no error guard compares a variable with a constant its type can never reach (except `unsigned < 0`)
+  WINDOW-FIT  (c08_range.py) a local table filled by a loop over 1 << (w - k) holds the largest window the function chooses
   GROW-FIRST  (c08_range.py) the digit count of an integer is not raised before the bn_grow that has to cover it
   WRITE-GUARD (c08_wguard.py) no write through a caller's (buffer, capacity) pair before the capacity has been examined
   CAP         a digit store into a multiple-precision integer is preceded by a capacity request that covers the index
@@ -936,6 +937,7 @@ def analyse(ctx, prog, chk, dyn=False):
         from . import c08_range
         out["grange"] = c08_range.rule_guard_range(ctx, prog, chk)
         out["gfirst"] = c08_range.rule_grow_first(ctx, prog, chk)
+        out["wfit"] = c08_range.rule_window_fit(ctx, prog, chk)
     return out
 
 
@@ -959,6 +961,7 @@ def run(ctx, chk):
     chk.floor("WRAP", "unsigned subtractions in conditions (BASE)", c["wrap"], 20)
     chk.floor("WRITE-GUARD", "writes through caller buffers with a capacity (BASE)", c["wguard"], 120)
     chk.floor("GUARD-RANGE", "comparisons of integer variables with constants (BASE)", c["grange"], 3000)
+    chk.floor("WINDOW-FIT", "tables filled by a loop over 1 << (w - k) with constant window choices (BASE)", c["wfit"], 10)
     chk.floor("GROW-FIRST", "digit-count stores in functions that request capacity (BASE)", c["gfirst"], 10)
     if chk.tier == "thorough":
         for cfg in ("P255", "P381"):
